@@ -220,6 +220,7 @@ func (e *Engine) RunHarness(cfg *HarnessCfg, nValidate int) (res *HarnessResult)
 	for {
 		e.p = &PathState{prefix: prefix, occ: map[string]int{}}
 		e.files = map[string]*memFile{}
+		e.openFiles = nil
 		e.stepLimit = defaultStepLimit
 		if cfg.StepBudget > 0 {
 			e.stepLimit = cfg.StepBudget
